@@ -716,7 +716,10 @@ Definition tcp_process_transition (cx : ctx) (s : socket) (ip : ip_repr) (r : tc
   | Listen, CRst => Ok (Ret 140 s None)
   | SynReceived, CRst =>
       if negb (le_port (s_listen_endpoint s) =? 0) then
-        let s := upd_tuple s None in
+        (* back to a pristine LISTEN: reset() keeps nothing of the aborted handshake *)
+        let listen_endpoint := s_listen_endpoint s in
+        let s := tcp_reset s in
+        let s := upd_listen_endpoint s listen_endpoint in
         Ok (Ret 141 (tcp_set_state s Listen) None)
       else
         let s := tcp_set_state s Closed in
